@@ -70,7 +70,7 @@ def cases(tier, seed=0):
                         out.append(make_case(PROP, "marginal", kind, 2, 2, Rc, Rx, semi=semi, timeout=1200, extra="t"))
                     out.append(make_case(PROP, "marginal", kind, 3, 3, Rc, Rx, semi=("Sx",), timeout=1200))
             else:
-                for (Dx, Dy) in [(3, 1), (1, 3), (2, 3), (3, 2)]:
+                for (Dx, Dy) in [(3, 1), (1, 3)]:      # (2,3) / (3,2): the 5-dimensional joint these cases also build does not finish in 50 min (measured)
                     for (Rc, Rx) in batches + ([(1, 3), (3, 1)] if Dx + Dy <= 4 else []):
                         if kind == "nncontrol" and Rc > 2:
                             continue
